@@ -23,7 +23,7 @@ func init() {
 	run.Register(&run.Check{
 		ID:    "C19",
 		Level: "fault_enumeration",
-		Rule: "fault enumeration: conflict kind (7: equal ANP priorities, ANP priority outside 0..1000, duplicate ANP name, duplicate NetworkPolicy name in one namespace, two BANPs, BANP not named default, pods of one owner with different labels - every way two label sets can differ, including a label controllers set per pod; one to three equal replicas before the odd one -) x number of other admin policies {0,1,2,3,5,8,11,12,13,20,31,64,200} x position of the conflicting documents {first,last,adjacent,far apart,median} x route {list, diff with the conflict in dir1, in dir2}, file placement random; the conflicting admin policy has rules in one direction, in both, or no rule at all; a third of the duplicate-name / two-BANP conflicts are the very same document twice; fillers include rule-less policies and the legal boundary priorities 0 and 1000; in 30% of the cells a stray non-manifest / malformed file (a severe, recoverable error) is read before or after the conflict, in the twin too; " +
+		Rule: "fault enumeration: conflict kind (7: equal ANP priorities, ANP priority outside 0..1000, duplicate ANP name, duplicate NetworkPolicy name in one namespace, two BANPs, BANP not named default, pods of one owner with different labels - every way two label sets can differ, including a label controllers set per pod; one to three equal replicas before the odd one -) x number of other admin policies {0,1,2,3,5,8,11,12,13,20,31,64,200} x position of the conflicting documents {first,last,adjacent,far apart,median} x route {list, diff with the conflict in dir1, in dir2}, file placement random; 12% of the cells hold policies only (no workload at all: nothing to report, but a conflict all the same); the conflicting admin policy has rules in one direction, in both, or no rule at all; a third of the duplicate-name / two-BANP conflicts are the very same document twice; fillers include rule-less policies and the legal boundary priorities 0 and 1000; in 30% of the cells a stray non-manifest / malformed file (a severe, recoverable error) is read before or after the conflict, in the twin too; " +
 			"each cell is run with the conflict (expected: error returned, no connections, a fatal entry in Errors(), message naming the conflict) and as a conflict-free twin (expected: clean analysis), so an oracle that fires on everything is caught; " +
 			"non-trivial = the conflict-free twin analysed cleanly with a non-empty report; distinct = cell + filler hash",
 		Assumptions:       []string{"'naming the conflict' = the message contains one of the conflicting resource names, the offending priority value, or the words baseline/default for the BANP kinds", "exposure mode is out of scope (it rejects every ANP)"},
@@ -285,6 +285,19 @@ func runC19(c *run.Ctx) {
 		}
 	}
 	rng.Shuffle(g, admin)
+	// policies only: an input without any workload has nothing to report, but a conflict among its policies is a conflict all the same
+	policiesOnly := kind != "owner-label-mismatch" && g.P(0.12)
+	if policiesOnly {
+		kept := []world.Doc{}
+		for _, d := range rest {
+			if d.Kind == "Namespace" || d.Kind == "NetworkPolicy" || d.Kind == "BaselineAdminNetworkPolicy" || d.Kind == "BANP" || d.Kind == "Service" {
+				kept = append(kept, d)
+			}
+		}
+		rest = kept
+		r.Ev("cells_without_any_workload", 1)
+		r.Feat("policies_only")
+	}
 	var withConflict []world.Doc
 	if kind == "np-same-name" || kind == "owner-label-mismatch" || kind == "two-banp" || kind == "banp-not-default" {
 		rng.Shuffle(g, rest)
@@ -338,7 +351,7 @@ func runC19(c *run.Ctx) {
 			return
 		}
 		r.Ev("conflict_runs", 1)
-		if t.HasErr || t.HasFatal() {
+		if (t.HasErr || t.HasFatal()) && !policiesOnly { // a twin without workloads may be refused for that reason; nothing is asked of it
 			r.Violate("c19.twin", "c19.twin:"+kind+":twin-rejected", "the conflict-free twin analyses cleanly", "error: "+t.Err, tag)
 			return
 		}
@@ -375,7 +388,7 @@ func runC19(c *run.Ctx) {
 			return
 		}
 		r.Ev("conflict_runs", 1)
-		if t.HasErr {
+		if t.HasErr && !policiesOnly {
 			r.Violate("c19.twin", "c19.twin:"+kind+":twin-rejected", "the conflict-free twin analyses cleanly", "error: "+t.Err, tag)
 			return
 		}
